@@ -179,7 +179,7 @@ Proof.
   assert (Hpw : p' <> w) by (intro Ep; subst p'; congruence).
   (* the new cell, then its flags *)
   unfold bind at 1. unfold allocw.
-  set (c0 := mkW (Some p') None None None 1 false false true false false []).
+  set (c0 := mkW (Some p') None None None 1 false false true false false [] false).
   set (h1 := mkHeap (PM.add (nextw h) c0 (wins h)) (reqs h) (rx h) (Pos.succ (nextw h)) (nextq h) (dlog h) (uninit_seen h) (tr h)).
   fold w.
   assert (Fr1 : fresh_cell h h1 w c0).
@@ -777,29 +777,6 @@ Proof.
   - congruence.
 Qed.
 
-Lemma focus_lost_spec : forall fuel w h,
-  hinv [] h -> findw h w <> None ->
-  hoare (fun h1 => h1 = h) (focus_lost fuel w) (fun _ h' => flags_only h h').
-Proof.
-  induction fuel as [|f IH]; intros w h HI Hlw h0 E; subst h0; cbn [focus_lost]; [exact I|].
-  destruct (live_some h w Hlw) as [c Hw].
-  unfold bind at 1. rewrite (getw_run h w c Hw). unfold bind at 1.
-  assert (Hsub : match (match w_focus c with Some fc => focus_lost f fc | None => ret tt end) h with
-                 | Ok _ h1 => flags_only h h1 | Fault _ _ => False | NoFuel => True end).
-  { destruct (w_focus c) as [fc|] eqn:Hfo; [|cbn; apply flags_only_refl].
-    destruct (hi_focus [] h HI w c fc Hw (fun x => x) Hfo) as [cf [Hfc _]].
-    apply (IH fc h HI); [congruence|reflexivity]. }
-  destruct ((match w_focus c with Some fc => focus_lost f fc | None => ret tt end) h) as [u h1| |]; [|contradiction|exact I].
-  destruct (links_eq_find h h1 w c (proj1 Hsub) Hw) as [c2 [Hw2 _]].
-  unfold bind at 1. rewrite (getw_run h1 w c2 Hw2).
-  destruct (w_focused c2); [|cbn; exact Hsub].
-  rewrite (setw_run h1 w c2 _ Hw2).
-  eapply flags_only_trans; [exact Hsub|].
-  assert (Eh : upd_cell h1 w (fun _ => set_focused c2 false) = upd_cell h1 w (fun c => set_focused c false)).
-  { unfold upd_cell. rewrite Hw2. reflexivity. }
-  rewrite Eh. apply flags_only_upd. intro c0. split; [repeat split|reflexivity].
-Qed.
-
 Lemma stable_anc : forall h h' a b, stable h h' -> anc h a b -> anc h' a b.
 Proof.
   intros h h' a b S Ha. induction Ha as [a c Hf | a c p b Hf Hp Ha IH].
@@ -814,87 +791,4 @@ Lemma stable_child : forall h h' k ck p, stable h h' -> findw h k = Some ck -> w
 Proof.
   intros h h' k ck p S Hf Hp. pose proof (st_wins h h' S k) as H. rewrite Hf in H.
   destruct (findw h' k) as [c'|]; [|contradiction]. exists c'. split; auto. destruct H as [H1 _]. congruence.
-Qed.
-
-Lemma focus_gained_spec : forall fuel w child h,
-  hinv [] h -> anc h w root ->
-  (forall ch, child = Some ch -> exists cch, findw h ch = Some cch /\ w_parent cch = Some w) ->
-  hoare (fun h1 => h1 = h) (focus_gained fuel w child) (fun _ h' => hinv [] h' /\ stable h h').
-Proof.
-  induction fuel as [|f IH]; intros w child h HI Hanc Hch h0 E; subst h0; cbn [focus_gained]; [exact I|].
-  pose proof (anc_live_l h w root Hanc) as Hlw. destruct (live_some h w Hlw) as [c Hw].
-  unfold bind at 1. rewrite (getw_run h w c Hw). unfold bind at 1.
-  (* the previously focused child loses the focus *)
-  assert (H1a : match (match w_focus c, child with
-                      | Some fc, Some ch => if negb (Pos.eqb fc ch) then focus_lost f fc else ret tt
-                      | Some fc, None => focus_lost f fc
-                      | None, _ => ret tt end) h with
-               | Ok _ h1 => flags_only h h1 | Fault _ _ => False | NoFuel => True end).
-  { destruct (w_focus c) as [fc|] eqn:Hfo; [|cbn; apply flags_only_refl].
-    destruct (hi_focus [] h HI w c fc Hw (fun x => x) Hfo) as [cf [Hfc _]].
-    destruct child as [ch|].
-    - destruct (negb (Pos.eqb fc ch)); [|cbn; apply flags_only_refl].
-      apply (focus_lost_spec f fc h HI); [congruence|reflexivity].
-    - apply (focus_lost_spec f fc h HI); [congruence|reflexivity]. }
-  match goal with |- match match ?m h with _ => _ end with _ => _ end => destruct (m h) as [u1a h1a| |] end; [|contradiction|exact I].
-  (* the window itself no longer holds the focus when it moves on to a descendant *)
-  unfold bind at 1.
-  assert (H1b : match (match child with
-                       | Some _ => c0 <- getw w ;; if w_focused c0 then setw w (set_focused c0 false) else ret tt
-                       | None => ret tt end) h1a with
-                | Ok _ h1 => flags_only h1a h1 | Fault _ _ => False | NoFuel => True end).
-  { destruct child; [|cbn; apply flags_only_refl].
-    destruct (links_eq_find h h1a w c (proj1 H1a) Hw) as [c0 [Hw0 _]].
-    unfold bind at 1. rewrite (getw_run h1a w c0 Hw0).
-    destruct (w_focused c0); [|cbn; apply flags_only_refl].
-    rewrite (setw_run h1a w c0 _ Hw0).
-    assert (Eh : upd_cell h1a w (fun _ => set_focused c0 false) = upd_cell h1a w (fun c => set_focused c false)).
-    { unfold upd_cell. rewrite Hw0. reflexivity. }
-    rewrite Eh. apply flags_only_upd. intro cx. split; [repeat split|reflexivity]. }
-  match goal with |- match match ?m h1a with _ => _ end with _ => _ end => destruct (m h1a) as [u1 h1| |] end; [|contradiction|exact I].
-  assert (H1 : flags_only h h1) by (eapply flags_only_trans; eauto).
-  pose proof (flags_only_hinv [] h h1 HI H1) as HI1. pose proof (flags_only_stable h h1 H1) as S1.
-  destruct (links_eq_find h h1 w c (proj1 H1) Hw) as [c1 [Hw1 [Hp1 _]]].
-  unfold bind at 1. rewrite (getw_run h1 w c1 Hw1). unfold bind at 1.
-  (* upwards, or the restore request at the root *)
-  assert (H2 : match (match w_parent c1 with
-                      | Some p => if w_visible c1 then focus_gained f p (Some w) else ret tt
-                      | None => root0 <- get_root f w ;; request_restore root0 end) h1 with
-               | Ok _ h2 => hinv [] h2 /\ stable h1 h2 | Fault _ _ => False | NoFuel => True end).
-  { pose proof (stable_anc h h1 w root S1 Hanc) as Hanc1.
-    destruct (w_parent c1) as [p|] eqn:Hpp.
-    - destruct (w_visible c1); [|cbn; split; [exact HI1|apply stable_refl]].
-      apply (IH p (Some w) h1 HI1); [| |reflexivity].
-      + inversion Hanc1 as [a' c' Hf' | a' c' p0 b Hf' Hp' Hap]; subst.
-        * rewrite Hw1 in Hf'. inversion Hf'; subst c'. rewrite (hi_root_parent [] h1 HI1 c1 Hw1) in Hpp. discriminate.
-        * rewrite Hw1 in Hf'. inversion Hf'; subst c'. rewrite Hpp in Hp'. inversion Hp'; subst p0. exact Hap.
-      + intros ch Ech. inversion Ech; subst ch. eauto.
-    - assert (Ew : root = w) by exact (anc_top h1 w root c1 Hanc1 Hw1 Hpp). subst w.
-      unfold bind at 1. pose proof (get_root_spec [] f root h1 (conj HI1 Hanc1)) as Hgr.
-      destruct (get_root f root h1) as [r h1'| |]; [|contradiction|exact I].
-      destruct Hgr as [Eh Er]. subst h1' r.
-      assert (Hir : w_isroot c1 = true) by (rewrite (hi_isroot [] h1 HI1 root c1 Hw1); apply Pos.eqb_refl).
-      pose proof (request_restore_spec [] root h1 h1 (conj eq_refl (conj HI1 (ex_intro _ c1 (conj Hw1 Hir))))) as Hrr.
-      destruct (request_restore root h1) as [u h2| |]; [|contradiction|exact I].
-      split; [eapply hinv_rx_only; eauto|apply rx_only_stable; exact Hrr]. }
-  match goal with |- match match ?m h1 with _ => _ end with _ => _ end => destruct (m h1) as [u2 h2| |] end; [|contradiction|exact I].
-  destruct H2 as [HI2 S2].
-  assert (S02 : stable h h2) by (eapply stable_trans; eauto).
-  assert (Hlw2 : findw h2 w <> None) by (apply (stable_live h h2 w S02); exact Hlw).
-  destruct (live_some h2 w Hlw2) as [c2 Hw2].
-  unfold bind at 1.
-  (* the focused flag *)
-  assert (H3 : match (match child with None => upd w (fun c => set_focused c true) | Some _ => ret tt end) h2 with
-               | Ok _ h3 => flags_only h2 h3 | Fault _ _ => False | NoFuel => True end).
-  { destruct child; [cbn; apply flags_only_refl|].
-    rewrite (upd_run h2 w _ c2 Hw2). apply flags_only_upd. intro c0. split; [repeat split|reflexivity]. }
-  match goal with |- match match ?m h2 with _ => _ end with _ => _ end => destruct (m h2) as [u3 h3| |] end; [|contradiction|exact I].
-  pose proof (flags_only_hinv [] h2 h3 HI2 H3) as HI3. pose proof (flags_only_stable h2 h3 H3) as S3.
-  assert (S03 : stable h h3) by (eapply stable_trans; eauto).
-  assert (Hlw3 : findw h3 w <> None) by (apply (stable_live h h3 w S03); exact Hlw).
-  destruct (live_some h3 w Hlw3) as [c3 Hw3].
-  rewrite (upd_run h3 w _ c3 Hw3).
-  destruct (hinv_set_focus [] h3 w c3 child HI3 Hw3) as [HI4 S4].
-  - intros x Ex. destruct (Hch x Ex) as [cx [G1 G2]]. exact (stable_child h h3 x cx w S03 G1 G2).
-  - split; [exact HI4|eapply stable_trans; eauto].
 Qed.
